@@ -624,7 +624,7 @@ impl St {
                         break 'calls;
                     }
                     self.dig(exp_eq as u64 + 2 * (exp_ord as i8 + 1) as u64);
-                    self.dig(h1);
+                    self.dig((h1 == h2) as u64);
                 }
                 let oobs = Self::observe_buf(&*other, n).map_err(|e| format!("the other buffer after comparing: {e}"));
                 drop(other);
